@@ -89,8 +89,28 @@ class Gen:
                 if not cons:
                     cons = {"min_items": 1}
             return Ann(Coll(c, e), cons)
-        if k < 0.9:
+        if k < 0.86:
             return Ann(MapT("dict", self.strlike(), self.type(depth + 1, scope)), dict(r.choice(OBJ_CONS)))
+        if k < 0.95:
+            # constraints attached to a multi-type union: they apply to each alternative, by the JSON type of the datum
+            pool = [Prim("int"), Prim("str"), Prim("float"), Coll("list", Prim("int")), Prim("bool"), MapT("dict", Prim("str"), Prim("int")), Prim("none")]
+            alts = r.sample(pool[:-1], r.choice([2, 2, 3]))
+            if any(isinstance(a, Prim) and a.p == "float" for a in alts):
+                alts = [a for a in alts if not (isinstance(a, Prim) and a.p == "int")] or alts
+            if r.random() < 0.3:
+                alts.append(Prim("none"))
+            cons = {}
+            for a in alts:
+                if isinstance(a, Prim) and a.p in ("int", "float"):
+                    cons.update(r.choice(NUM_CONS[:4]))
+                elif isinstance(a, Prim) and a.p == "str":
+                    cons.update(r.choice(STR_CONS[:2] + STR_CONS[4:5]))
+                elif isinstance(a, Coll):
+                    cons.update(r.choice(ARR_CONS[:2]))
+                elif isinstance(a, MapT):
+                    cons.update(r.choice(OBJ_CONS))
+            if len(alts) >= 2 and cons:
+                return Ann(Union_(alts), cons)
         return Ann(AnyT(), dict(r.choice(NUM_CONS + STR_CONS + ARR_CONS)))
 
     def union(self, depth, scope, n=None):
